@@ -410,32 +410,126 @@ def o_engine_invariants(w):
 
 
 # ------------------------------------------------------------------ layer 4 driver
-def classify_named(ln, io, mo):
-    """a stable key for a divergence from Core: Core's error name (asked of the driver) + what btclib said"""
+KNOWN_CLASSES = {"const_scriptcode_findanddelete_order", "strictenc_pubkey_unchecked_for_empty_sig",
+                 "witness_pubkeytype_unchecked", "dersig_structurally_valid_sig_refused", "lax_der_signature_refused",
+                 "strictenc_hashtype_zero_accepted"}
+
+
+def _driver(line: str) -> str:
     import subprocess
+    return subprocess.run([os.path.join(common.BIN, "drv_c08")], input=(line + "\n").encode(),
+                          stdout=subprocess.PIPE, check=False).stdout.decode().strip()
+
+
+def resolve_model(line: str) -> str:
+    """the model's answer to one line, signature oracle answered on the way"""
+    for _ in range(64):
+        r = _driver(line)
+        if not r.startswith("need "):
+            return r
+        line = answer(line, r[5:])
+    raise common.HarnessError("oracle protocol did not converge")
+
+
+def _impl(t) -> str:
+    return (impl_eval if t[0] in ("eval", "execwit") else impl_verify)(t)
+
+
+def _strict_der(sig: bytes) -> bool:
+    """IsValidSignatureEncoding"""
+    n = len(sig)
+    if n < 9 or n > 73 or sig[0] != 0x30 or sig[1] != n - 3:
+        return False
+    lr = sig[3]
+    if 5 + lr >= n:
+        return False
+    ls = sig[5 + lr]
+    if lr + ls + 7 != n or sig[2] != 2 or lr == 0 or sig[4] & 0x80:
+        return False
+    if lr > 1 and sig[4] == 0 and not sig[5] & 0x80:
+        return False
+    if sig[lr + 4] != 2 or ls == 0 or sig[lr + 6] & 0x80:
+        return False
+    return not (ls > 1 and sig[lr + 6] == 0 and not sig[lr + 7] & 0x80)
+
+
+def _pushes(script: bytes):
+    from btclib.script.script import op_code_spans
+    for o, a, b in op_code_spans(script):
+        if o == 0:
+            yield b""
+        if 0 < o <= 78:
+            w = 0 if o < 76 else 1 << (o - 76)
+            yield script[a + 1 + w:b]
+
+
+def _elements(t):
+    """every byte string of an op line that could be taken for a signature or a key"""
+    if t[0] in ("eval", "execwit"):
+        scripts, items = [unhx(t[3])], unhexlist(t[4])
+    else:
+        scripts, items = [unhx(t[2]), unhx(t[3])], unhexlist(t[4])
+    out = list(items)
+    for sc in scripts + items:
+        for d in _pushes(sc):
+            out.append(d)
+            if len(d) > 40:
+                out.extend(_pushes(d))
+    return out
+
+
+def classify_named(ln, io, mo):
+    """a stable key for a divergence from Core.  A *known* class is named only when a predicate on the input
+    says it is that class: Core's error code (asked of the transcription), what btclib said, the shape of the
+    elements involved, and engine and transcription agreeing again once the flag in question is dropped."""
     t = ln.split(" ")
-    named = subprocess.run([os.path.join(common.BIN, "drv_c08")], input=(" ".join([t[0] + "x"] + t[1:]) + "\n").encode(),
-                           stdout=subprocess.PIPE, check=False).stdout.decode().strip()
+    named = _driver(" ".join([t[0] + "x"] + t[1:]))
     core = named.split(" ")[1] if named.startswith("err ") else "OK"
     LAST_ERR[0] = ""
-    (impl_eval if t[0] in ("eval", "execwit") else impl_verify)(t)
+    _impl(t)
     msg = LAST_ERR[0]
     accepted = io.startswith("ok")
-    if core == "SIG_FINDANDDELETE":
+    fi = 2 if t[0] in ("eval", "execwit") else 1
+    flags = [] if t[fi] == "-" else t[fi].split(",")
+    strict = any(f in flags for f in ("DERSIG", "LOW_S", "STRICTENC"))
+
+    def agree_without(drop):
+        t2 = list(t)
+        keep = [f for f in flags if f not in drop]
+        t2[fi] = ",".join(keep) if keep else "-"
+        t2[-1] = t2[-1].split(";")[0]
+        i2, m2 = _impl(t2), resolve_model(" ".join(t2))
+        # agreeing again, or left with a divergence of another known class (two classes can meet in one program)
+        return i2 == m2 or classify_named(" ".join(t2), i2, m2) in KNOWN_CLASSES
+
+    els = _elements(t)
+    if core == "SIG_FINDANDDELETE" and "CONST_SCRIPTCODE" in flags and "found in the script code" not in msg \
+            and agree_without({"CONST_SCRIPTCODE"}):
         return "const_scriptcode_findanddelete_order"
-    if core == "PUBKEYTYPE" and accepted:
+    if core == "PUBKEYTYPE" and accepted and "STRICTENC" in flags and b"" in els and agree_without({"STRICTENC"}):
         return "strictenc_pubkey_unchecked_for_empty_sig"
-    if core == "WITNESS_PUBKEYTYPE" and accepted:
+    if core == "WITNESS_PUBKEYTYPE" and accepted and agree_without({"WITNESS_PUBKEYTYPE"}):
         return "witness_pubkeytype_unchecked"
-    if core == "OK" and ("valid x-coordinate" in msg or "not in 1..n-1" in msg):
+    if core == "OK" and not accepted and strict and ("valid x-coordinate" in msg or "not in 1..n-1" in msg) \
+            and any(_strict_der(e) for e in els) and agree_without({"DERSIG", "LOW_S", "STRICTENC"}):
         return "dersig_structurally_valid_sig_refused"
+    if core == "OK" and not accepted and not strict \
+            and any(len(e) > 8 and e[0] == 0x30 and not _strict_der(e) and der_lax(e[:-1]) is not None for e in els):
+        return "lax_der_signature_refused"
+    if core == "SIG_HASHTYPE" and accepted and "STRICTENC" in flags \
+            and any(_strict_der(e) and e[-1] & 0x7F == 0 for e in els) and agree_without({"STRICTENC"}):
+        return "strictenc_hashtype_zero_accepted"
+    if core == "OK" and not accepted and t[0] == "verify" and "witness stack element longer" in msg:
+        wit = unhexlist(t[4])
+        if wit and wit[-1][:1] == b"\x50" and len(wit) >= 2:
+            wit = wit[:-1]
+        from btclib.script.script import op_code_spans
+        if len(wit) >= 2 and any(len(e) > 520 for e in wit[:-2]) and any(
+                o in (80, 98) or 126 <= o <= 129 or 131 <= o <= 134 or 137 <= o <= 138 or 141 <= o <= 142
+                or 149 <= o <= 153 or 187 <= o <= 254 for o, _, _ in op_code_spans(wit[-2])):
+            return "op_success_oversized_witness_element_refused"
     if core == "SCHNORR_SIG_SIZE" and accepted:
         return "schnorr_sig_size_accepted"
-    flags = t[2] if t[0] in ("eval", "execwit") else t[1]
-    strict = any(f in flags.split(",") for f in ("DERSIG", "LOW_S", "STRICTENC"))
-    if core == "OK" and not accepted and not strict and ("false top stack element" in msg or "failed OP_CHECK" in msg
-                                                          or "left on the stack" in msg):
-        return "lax_der_signature_refused"
     what = "accepts" if accepted else "refuses"
     return f"{t[0]}:{what}_where_core_says_{core}"
 
@@ -446,6 +540,14 @@ def classify_eval(ln, io, mo):
     return classify_named(ln, io, mo)
 
 
+G_KEY = "0279be667ef9dcbbac55a06295ce870b07029bfcdb2dce28d959f2815b16f81798"
+# one deterministic witness per known divergence class (known_findings.json keys)
+KNOWN_EVAL = [
+    ("base", "DERSIG", "09" + "300602010502010501" + "21" + G_KEY + "ac91", []),       # dersig_structurally_valid_sig_refused
+    ("base", "CONST_SCRIPTCODE", "0021" + G_KEY + "ac", []),                            # const_scriptcode_findanddelete_order
+    ("base", "STRICTENC", "000105ac", []),                                              # strictenc_pubkey_unchecked_for_empty_sig
+    ("v0", "WITNESS_PUBKEYTYPE", "000105ac", []),                                       # witness_pubkeytype_unchecked
+]
 CORPUS_EVAL = [
     # (sv, flags, script hex, stack) — fixed cases kept from past disagreements and from the design notes
     ("tapscript", "-", "0063ff6851", []), ("tapscript", "-", "ff50", []), ("tapscript", "-", "50ff", []),
@@ -459,6 +561,8 @@ def run_eval(ctx, spec):
     lines = []
     wit_lines = []
     fsets = G.flag_sets(rng, 64, EVAL_FLAGS)
+    for sv, fl, sc, st in KNOWN_EVAL:
+        lines.append(f"eval {sv} {fl} {sc} {hexlist(st)} 0 4294967295 1 0 deny")
     for sv, fl, sc, st in CORPUS_EVAL:
         wit_lines.append(f"execwit {sv} {fl} {sc} {hexlist(st)} 0 4294967295 1 1000 deny")
     for _ in range(ctx.n(1500, 40000)):
